@@ -69,6 +69,28 @@ fn opt_i64(s: &str) -> Option<i64> {
         Some(num(s))
     }
 }
+/// a priority token `v` or `v/t`
+fn prio_of(s: &str) -> Pr {
+    match s.split_once('/') {
+        Some((v, t)) => Pr(num(v), num(t)),
+        None => Pr(num(s), 0),
+    }
+}
+fn opt_prio(s: &str) -> Option<(i64, i64)> {
+    if s == "-" {
+        None
+    } else {
+        let p = prio_of(s);
+        Some((p.0, p.1))
+    }
+}
+fn p_prio(s: &mut String, p: &Pr) {
+    p_i64(s, p.0);
+    if p.1 != 0 {
+        s.push('/');
+        p_i64(s, p.1);
+    }
+}
 fn flag(s: &str) -> bool {
     s == "1"
 }
@@ -85,7 +107,7 @@ fn triples(t: &[&str]) -> Vec<(It, Pr)> {
                     key: num(t[1 + 3 * i]),
                     payload: num(t[2 + 3 * i]),
                 },
-                Pr(num(t[3 + 3 * i])),
+                prio_of(t[3 + 3 * i]),
             )
         })
         .collect()
@@ -128,13 +150,13 @@ fn p_elem(s: &mut String, i: &It, p: &Pr) {
     s.push(':');
     p_i64(s, i.payload);
     s.push(':');
-    p_i64(s, p.0);
+    p_prio(s, p);
 }
 fn p_optp(s: &mut String, o: Option<&Pr>) {
     s.push_str("optp ");
     match o {
         None => s.push('-'),
-        Some(p) => p_i64(s, p.0),
+        Some(p) => p_prio(s, p),
     }
 }
 fn p_opte(s: &mut String, o: Option<(&It, &Pr)>) {
@@ -201,8 +223,8 @@ fn p_reg<H>(s: &mut String, idx: usize, r: &Reg<H>) {
 
 #[derive(Clone, Copy)]
 enum Step {
-    N(Option<i64>, Option<i64>),
-    B(Option<i64>, Option<i64>),
+    N(Option<(i64, i64)>, Option<i64>),
+    B(Option<(i64, i64)>, Option<i64>),
     L,
     S,
     /// `nth(k)` / `nth_back(k)`: std's defaults are k+1 calls of next / next_back
@@ -277,8 +299,8 @@ fn parse_script(t: &[&str]) -> Script {
             match p.as_slice() {
                 ["n"] => Step::N(None, None),
                 ["b"] => Step::B(None, None),
-                ["n", w, pl] => Step::N(opt_i64(w), opt_i64(pl)),
-                ["b", w, pl] => Step::B(opt_i64(w), opt_i64(pl)),
+                ["n", w, pl] => Step::N(opt_prio(w), opt_i64(pl)),
+                ["b", w, pl] => Step::B(opt_prio(w), opt_i64(pl)),
                 ["l"] => Step::L,
                 ["s"] => Step::S,
                 ["nth", k] => Step::Nth(num(k)),
@@ -323,25 +345,26 @@ fn ctx_of<'a>(mut it: impl Iterator<Item = (&'a It, &'a Pr)>) -> Ctx {
 }
 
 trait Yield {
-    fn emit(self, w: Option<i64>, pl: Option<i64>, ctx: &Ctx, out: &mut String);
+    fn emit(self, w: Option<(i64, i64)>, pl: Option<i64>, ctx: &Ctx, out: &mut String);
 }
 impl Yield for (It, Pr) {
-    fn emit(self, _: Option<i64>, _: Option<i64>, _: &Ctx, out: &mut String) {
+    fn emit(self, _: Option<(i64, i64)>, _: Option<i64>, _: &Ctx, out: &mut String) {
         out.push_str("e:");
         p_elem(out, &self.0, &self.1);
     }
 }
 impl<'a> Yield for (&'a It, &'a Pr) {
-    fn emit(self, _: Option<i64>, _: Option<i64>, _: &Ctx, out: &mut String) {
+    fn emit(self, _: Option<(i64, i64)>, _: Option<i64>, _: &Ctx, out: &mut String) {
         out.push_str("e:");
         p_elem(out, self.0, self.1);
     }
 }
 impl<'a> Yield for (&'a mut It, &'a mut Pr) {
-    fn emit(self, w: Option<i64>, pl: Option<i64>, ctx: &Ctx, out: &mut String) {
+    fn emit(self, w: Option<(i64, i64)>, pl: Option<i64>, ctx: &Ctx, out: &mut String) {
         let (i, p) = self;
         if let Some(w) = w {
-            p.0 = w;
+            p.0 = w.0;
+            p.1 = w.1;
         }
         if let Some(pl) = pl {
             i.payload = pl;
@@ -899,9 +922,11 @@ impl<H: BuildHasher + Default + Clone + std::fmt::Debug> Ex<H> {
                     p_i64(&mut js, i.key);
                     js.push_str(",\"payload\":");
                     p_i64(&mut js, i.payload);
-                    js.push_str("},");
+                    js.push_str("},[");
                     p_i64(&mut js, p.0);
-                    js.push(']');
+                    js.push(',');
+                    p_i64(&mut js, p.1);
+                    js.push_str("]]");
                 }
                 js.push(']');
                 return self.from_json(k, r, &js, out);
@@ -923,7 +948,7 @@ impl<H: BuildHasher + Default + Clone + std::fmt::Debug> Ex<H> {
             "push" | "pushinc" | "pushdec" => {
                 let r: usize = num(tok(t, 1));
                 let i = It { key: num(tok(t, 2)), payload: num(tok(t, 3)) };
-                let p = Pr(num(tok(t, 4)));
+                let p = prio_of(tok(t, 4));
                 let old = on_q!(self.regs.get_mut(r), out, q => match t[0] {
                     "push" => q.push(i, p),
                     "pushinc" => q.push_increase(i, p),
@@ -934,17 +959,18 @@ impl<H: BuildHasher + Default + Clone + std::fmt::Debug> Ex<H> {
             "chg" => {
                 let r: usize = num(tok(t, 1));
                 let k = lookup(num(tok(t, 2)));
-                let p = Pr(num(tok(t, 3)));
+                let p = prio_of(tok(t, 3));
                 let old = on_q!(self.regs.get_mut(r), out, q => q.change_priority(&k, p));
                 p_optp(out, old.as_ref());
             }
             "chgby" => {
                 let r: usize = num(tok(t, 1));
                 let k = lookup(num(tok(t, 2)));
-                let p: i64 = num(tok(t, 3));
+                let p = prio_of(tok(t, 3));
                 let b = on_q!(self.regs.get_mut(r), out, q => q.change_priority_by(&k, |x| {
                     fuse_tick();
-                    x.0 = p;
+                    x.0 = p.0;
+                    x.1 = p.1;
                 }));
                 p_bool(out, b);
             }
@@ -1002,11 +1028,12 @@ impl<H: BuildHasher + Default + Clone + std::fmt::Debug> Ex<H> {
             }
             "popif" => {
                 let (r, s) = (num::<usize>(tok(t, 1)), side_of(tok(t, 2)));
-                let (w, pl, b) = (opt_i64(tok(t, 3)), opt_i64(tok(t, 4)), flag(tok(t, 5)));
+                let (w, pl, b) = (opt_prio(tok(t, 3)), opt_i64(tok(t, 4)), flag(tok(t, 5)));
                 let f = |i: &mut It, p: &mut Pr| {
                     fuse_tick();
                     if let Some(w) = w {
-                        p.0 = w;
+                        p.0 = w.0;
+                        p.1 = w.1;
                     }
                     if let Some(pl) = pl {
                         i.payload = pl;
@@ -1083,15 +1110,16 @@ impl<H: BuildHasher + Default + Clone + std::fmt::Debug> Ex<H> {
                 if t.len() < 4 + 3 * n {
                     bad("retainmut");
                 }
-                let tbl: Vec<(i64, Option<i64>, bool)> = (0..n)
-                    .map(|i| (num(t[4 + 3 * i]), opt_i64(t[5 + 3 * i]), flag(t[6 + 3 * i])))
+                let tbl: Vec<(i64, Option<(i64, i64)>, bool)> = (0..n)
+                    .map(|i| (num(t[4 + 3 * i]), opt_prio(t[5 + 3 * i]), flag(t[6 + 3 * i])))
                     .collect();
                 let f = |i: &mut It, p: &mut Pr| {
                     fuse_tick();
                     match tbl.iter().find(|e| e.0 == i.key) {
                         Some(e) => {
                             if let Some(w) = e.1 {
-                                p.0 = w;
+                                p.0 = w.0;
+                                p.1 = w.1;
                             }
                             e.2
                         }
@@ -1368,7 +1396,7 @@ impl<H: BuildHasher + Default + Clone + std::fmt::Debug> Ex<H> {
             p_i64(out, i.payload);
             out.push(':');
             match p {
-                Some(p) => p_i64(out, p.0),
+                Some(p) => p_prio(out, p),
                 None => out.push('?'),
             }
         }
